@@ -337,3 +337,4 @@ def ptr_into_array(prog, scope, an=None):
                           'straddles the page boundary)' % (show(n)[:30], name, show(arr), show(off)[:30], o_iv, k_iv, B),
                           'offset + index inside the array'))
     return RuleResult('R-IDX(ptr)', obs, 0, {'functions': nfn})
+
